@@ -49,8 +49,8 @@ ASSUMPTIONS = [
     "a writer exception means 'the writer does not accept the object'",
 ]
 SHARD_TIMEOUT = {"quick": 600, "thorough": 3000}
-N_CASES = {"quick": 480, "thorough": 12000}
-N_SHARDS = {"quick": 12, "thorough": 16}
+N_CASES = {"quick": 360, "thorough": 6400}
+N_SHARDS = {"quick": 11, "thorough": 16}
 
 
 # ---- plan / replay -----------------------------------------------------------------------------------------
@@ -62,7 +62,7 @@ def plan(tier, seed):
         specs.append({"shard": si, "tier": tier, "seed": seed, "cases": ch})
     # the example corpus: both tiers (it contains the only hierarchical plans); spread over 4 extra shards
     names = example_names()
-    for j, ch in enumerate(chunk(names, 4)):
+    for j, ch in enumerate(chunk(names, 4 if tier == "quick" else 8)):
         specs.append({"shard": len(specs), "tier": tier, "seed": seed, "cases": [], "examples": ch})
     return specs
 
@@ -126,6 +126,54 @@ def exc_signature(e):
     return f"{type(e).__name__}:{where}:{msg[:70]}"
 
 
+def api_unreconstructible_action(pb):
+    """Name of the first action of pb whose effects the public add_*effect API refuses (same exception family the reader
+    hit), else None.  Uses only public constructors on scratch actions."""
+    from collections import OrderedDict
+    from unified_planning.model import InstantaneousAction, DurativeAction
+    from unified_planning.exceptions import UPTypeError, UPConflictingEffectsException
+
+    env = pb.environment
+    for a in pb.actions:
+        params = OrderedDict((p.name, p.type) for p in a.parameters)
+        try:
+            if isinstance(a, InstantaneousAction):
+                b = InstantaneousAction(a.name, params, env)
+                for e in a.effects:
+                    f = {"assign": b.add_effect, "inc": b.add_increase_effect, "dec": b.add_decrease_effect}[
+                        "assign" if e.is_assignment() else "inc" if e.is_increase() else "dec"
+                    ]
+                    f(e.fluent, e.value, e.condition, e.forall)
+            elif isinstance(a, DurativeAction):
+                b = DurativeAction(a.name, params, env)
+                for t, effs in a.effects.items():
+                    for e in effs:
+                        f = {"assign": b.add_effect, "inc": b.add_increase_effect, "dec": b.add_decrease_effect}[
+                            "assign" if e.is_assignment() else "inc" if e.is_increase() else "dec"
+                        ]
+                        f(t, e.fluent, e.value, e.condition, e.forall)
+        except (UPTypeError, UPConflictingEffectsException):
+            return a.name
+    return None
+
+
+def stored_trajectory_constraint_not_in_api_form(pb):
+    """Printed form of the first stored trajectory constraint that `Problem.add_trajectory_constraint` itself would refuse
+    (read-only accessors only), else None."""
+
+    def is_tc(x):
+        return x.is_sometime() or x.is_sometime_after() or x.is_sometime_before() or x.is_at_most_once() or x.is_always()
+
+    try:
+        for tc in pb.trajectory_constraints:
+            ok = all(is_tc(a) for a in tc.args) if (tc.is_and() or tc.is_forall()) else is_tc(tc)
+            if not ok:
+                return "constant" if tc.is_constant() else "other-shape"
+    except Exception:
+        return None
+    return None
+
+
 def _safe_eq(a, b):
     try:
         return bool(a == b)
@@ -148,7 +196,7 @@ def locate_problem_diff(p, q):
         ("fluents", lambda x: list(x.fluents)),
         ("fluents_defaults", lambda x: dict(x.fluents_defaults)),
         ("objects", lambda x: set(x.all_objects)),
-        ("initial_values", lambda x: dict(x.explicit_initial_values)),
+        ("initial_values", lambda x: dict(x.initial_values)),  # (the library compares the *total* initial state)
         ("quality_metrics", lambda x: list(x.quality_metrics)),
         ("epsilon", lambda x: x.epsilon),
         ("discrete_time", lambda x: x.discrete_time),
@@ -274,13 +322,32 @@ class RT:
         m2.ParseFromString(data)
         return m2
 
-    def read(self, role, msg, *rargs):
+    def read(self, role, msg, *rargs, original_problem=None):
         """-> (ok, object).  A message the writer produced must be readable."""
         from unified_planning.grpc.proto_reader import ProtobufReader
+        from unified_planning.exceptions import UPTypeError, UPConflictingEffectsException
 
         try:
             return True, ProtobufReader().convert(msg, *rargs)
         except Exception as e:  # noqa: any exception: the written message cannot be read back
+            if isinstance(e, (UPTypeError, UPConflictingEffectsException)) and original_problem is not None:
+                # The reader can only rebuild actions through the public, checking Action API.  If the *original*
+                # action cannot be rebuilt through that API either (compilers assemble actions around the checks), no
+                # reader could succeed: don't-care, confirmed by an independent reconstruction probe.
+                bad = api_unreconstructible_action(original_problem)
+                if bad is not None:
+                    self.res.count(f"dontcare:original-action-not-constructible-through-public-api:{type(e).__name__}")
+                    return False, None
+            if isinstance(e, AssertionError) and "trajectory constraint" in str(e) and original_problem is not None:
+                # Problem.add_trajectory_constraint stores `constraint.simplify()`: `Always(false)`, `Sometime(o == o)`, ... are
+                # kept as the *constants* false / true, a shape the same public method refuses.  Such a problem is degenerate
+                # (it cannot be rebuilt through the model API by anybody); the statement does not force it: don't-care,
+                # confirmed by an independent shape probe of the stored constraints.
+                bad = stored_trajectory_constraint_not_in_api_form(original_problem)
+                if bad is not None:
+                    self.res.count("dontcare:stored-trajectory-constraint-not-in-api-form")
+                    self.res.count("dontcare:stored-trajectory-constraint-not-in-api-form:" + bad)
+                    return False, None
             self.judged(role, False, None)  # a judgement (with verdict "violated"): the feature classes were exercised
             self.viol(
                 f"read-raises:{exc_signature(e)}",
@@ -307,7 +374,7 @@ class RT:
         msg = self.write(role, pb)
         if msg is None:
             return None
-        ok, pb2 = self.read(role, msg, env)
+        ok, pb2 = self.read(role, msg, env, original_problem=pb)
         if not ok:
             return None
         self.judged(role, nontrivial, ntkey)
@@ -376,21 +443,36 @@ class RT:
             for f in dataclasses.fields(vr):
                 if not _safe_eq(getattr(vr, f.name), getattr(vr2, f.name)):
                     diff.append(f.name)
-            carried = {"status", "engine_name", "log_messages", "metrics"}
-            dropped = sorted(set(diff) - carried)
-            wrong = sorted(set(diff) & carried)
+            # (a) documented as outside the protobuf representation (test_protobuf_io.py::test_validation_result compares
+            #     modulo exactly these two): don't-care
+            for n in ("trace", "calculated_interpreted_functions"):
+                if n in diff:
+                    diff.remove(n)
+                    self.res.count(f"dontcare:validation-result:{n}-documented-as-not-represented")
+            # (b) absent vs empty container: proto3 maps / repeated fields have no presence, `{}` and None both denote
+            #     "no engine metrics" and carry no information: don't-care
+            if "metrics" in diff and vr.metrics == {} and vr2.metrics is None:
+                diff.remove("metrics")
+                self.res.count("dontcare:validation-result:metrics-empty-vs-absent")
+            if not diff:
+                return
+            wrong = sorted(set(diff) & VR_CARRIED)
+            lacking = sorted(set(diff) - VR_CARRIED)
+            for n in lacking:
+                self.res.count("validation-result-field-lost:" + n)
             if wrong:
                 det = ",".join(f"{n}:{_abbr(getattr(vr, n))}->{_abbr(getattr(vr2, n))}" for n in wrong)
                 mech = "not-equal:ValidationResult:" + det
             else:
-                mech = "not-equal:ValidationResult:fields-not-serialized"
+                # one root cause: message ValidationResult has no field for them, the writer drops them silently
+                mech = "not-equal:ValidationResult:schema-lacks-reason/inapplicable_action/metric_evaluations"
             self.viol(
                 mech,
                 f"{role}: re-read ValidationResult != original (differing fields: {diff})",
                 role=role,
                 differing_fields=diff,
-                dropped_fields=dropped,
-                expected=repr(vr)[:600],
+                fields_without_schema_counterpart=lacking,
+                expected=repr(dataclasses.replace(vr, trace=None, calculated_interpreted_functions=None))[:600],
                 observed=repr(vr2)[:600],
             )
 
@@ -401,7 +483,7 @@ class RT:
         msg = self.write(role, cr)
         if msg is None:
             return
-        ok, cr2 = self.read(role, msg, lifted)
+        ok, cr2 = self.read(role, msg, lifted, original_problem=cr.problem)
         if not ok:
             return
         self.judged(role, False, ntkey)
@@ -445,6 +527,9 @@ class RT:
                     self.viol("not-equal:CompilerResult:map_back", f"{role}: map_back_action_instance({ai}) = {got} after round trip, {exp} before", role=role, instance=str(ai), expected=str(exp), observed=str(got))
                     return
         self.res.count("map_back_instances_compared", n)
+
+
+VR_CARRIED = {"status", "engine_name", "log_messages", "metrics"}  # the fields message ValidationResult has
 
 
 def _plan_len(p):
@@ -522,36 +607,79 @@ def run_case(key, tier, res):
             real_validation_result(rt, pb, p, e, pid)
         if fam in ("classical", "typegrid") and i % 2 == 0:
             real_compiler_results(rt, pb, e, pid, rng_for(key, "compilers"))
-    # a sample of cases: the same recipe in an environment that is NOT the global one
+    # a sample of cases: the same recipe in an environment that is NOT the global one -- only when the round trip in the
+    # global environment could be read (every other failure already has its own mechanism there).
     # (HTN / scheduling model classes themselves create parts in the global environment: not probed)
     if i % 3 == 0 and fam in ("classical", "temporal", "typegrid", "timegrid"):
-        e2 = _env.fresh_env()
-        try:
-            pb = G.build_problem(rec, e2)
-        except UPException:
+        if pb2 is None:
+            res.count("nonglobal_env_probe_skipped(global read failed)")
             return
-        res.count("nonglobal_env_probes")
-        rt2 = RT(res, dict(wbase, nonglobal_environment=True), [])
-        msg = rt2.write("problem-in-non-global-environment", pb)
-        if msg is not None:
-            from unified_planning.grpc.proto_reader import ProtobufReader
+        nonglobal_probe(res, wbase, rec, key)
 
-            res.case()
-            res.mon()
-            try:
-                pb2 = ProtobufReader().convert(msg, e2)
-            except Exception as ex:
-                tb = traceback.extract_tb(ex.__traceback__)
-                fr = [f for f in tb if "/grpc/proto_" in f.filename]
-                rt2.viol(
-                    "non-global-environment:read-raises:" + type(ex).__name__ + ":" + (fr[-1].name if fr else "?"),
-                    f"a problem living in a non-global Environment cannot be read back into that environment: {type(ex).__name__}: {str(ex)[:160]} (at {fr[-1].name if fr else '?'})",
-                    observed=f"{type(ex).__name__}: {str(ex)[:300]}",
-                    traceback=traceback.format_exc()[-1000:],
-                )
-                return
-            if not _safe_eq(pb, pb2):
-                rt2.viol("non-global-environment:not-equal", "problem read into its own (non-global) environment differs", expected=str(pb)[:800], observed=str(pb2)[:800])
+
+def nonglobal_probe(res, wbase, rec, key):
+    """The reader takes an `environment` argument; a problem (and its plan) living in a fresh, non-global Environment must
+    come back into that environment.  One root cause is expected (objects / actions / metrics built without the
+    environment): mechanism `non-global-environment:read-raises:AssertionError`."""
+    from unified_planning.exceptions import UPException
+    from unified_planning.grpc.proto_reader import ProtobufReader
+
+    e2 = _env.fresh_env()
+    try:
+        pb = G.build_problem(rec, e2)
+    except UPException:
+        return
+    res.count("nonglobal_env_probes")
+    rt2 = RT(res, dict(wbase, nonglobal_environment=True), [])
+    msg = rt2.write("problem-in-non-global-environment", pb)
+    if msg is None:
+        return
+    res.case()
+    res.mon()
+    try:
+        pb2 = ProtobufReader().convert(msg, e2)
+    except Exception as ex:
+        tb = traceback.extract_tb(ex.__traceback__)
+        fr = [f for f in tb if "/grpc/proto_" in f.filename]
+        rt2.viol(
+            "non-global-environment:read-raises:" + type(ex).__name__,
+            f"a problem living in a non-global Environment cannot be read back into that environment: {type(ex).__name__}: {str(ex)[:160]} (at {fr[-1].name if fr else '?'})",
+            observed=f"{type(ex).__name__}: {str(ex)[:300]}",
+            site=fr[-1].name if fr else "?",
+            traceback=traceback.format_exc()[-1000:],
+        )
+        return
+    if not _safe_eq(pb, pb2):
+        rt2.viol("non-global-environment:not-equal", "problem read into its own (non-global) environment differs", expected=str(pb)[:800], observed=str(pb2)[:800])
+        return
+    if pb2.environment is not e2:
+        rt2.viol("non-global-environment:wrong-environment", "re-read problem does not live in the environment given to the reader")
+        return
+    # the plan of the case, against the non-global problem
+    try:
+        p, _ = G.gen_plan(pb, rng_for(key, "plan"))
+    except UPException:
+        return
+    if _plan_len(p) <= 0:
+        return
+    pmsg = rt2.write("plan-in-non-global-environment", p)
+    if pmsg is None:
+        return
+    res.case()
+    res.mon()
+    res.count("nonglobal_env_plan_probes")
+    try:
+        p2 = ProtobufReader().convert(pmsg, pb)
+    except Exception as ex:
+        rt2.viol(
+            "non-global-environment:plan-read-raises:" + type(ex).__name__,
+            f"a plan for a problem living in a non-global Environment cannot be read back: {type(ex).__name__}: {str(ex)[:160]}",
+            observed=f"{type(ex).__name__}: {str(ex)[:300]}",
+            traceback=traceback.format_exc()[-1000:],
+        )
+        return
+    if not _safe_eq(p, p2):
+        rt2.viol("non-global-environment:plan-not-equal", "plan read against its non-global problem differs", expected=str(p)[:600], observed=str(p2)[:600])
 
 
 def real_validation_result(rt, pb, plan, e, pid):
